@@ -10,8 +10,9 @@ from vlib.runner import HarnessError, Part, Violation
 
 import pymemcache.client.base as B
 import pymemcache.pool as P
+import pymemcache.client.hash as HM
 from pymemcache.client.base import PooledClient
-from pymemcache.exceptions import MemcacheServerError
+from pymemcache.exceptions import MemcacheError, MemcacheServerError
 
 PROPERTY = "C08"
 LEVEL = "exploration"
@@ -29,7 +30,7 @@ RULE = ("schedule = which thread runs at each yield point; yield points are ever
         "end used is empty and every object ever created is idle in the pool or had after_remove invoked exactly "
         "once; in (b) every socket is closed exactly once or belongs to an idle pooled client, and no two threads "
         "did I/O on one socket at the same time. Non-trivial: a pre-emption occurred inside a pool / pooled-client "
-        "frame and another thread entered a pool method afterwards. A scripted wall clock that steps backwards between releases (readings 100 .. 50 .. 85, idle timeout 30).")
+        "frame and another thread entered a pool method afterwards. A scripted wall clock that steps backwards between releases (readings 100 .. 50 .. 85, idle timeout 30). (h) the same pool driven through a HashClient(use_pooling=True) shared by the threads, the hash client's own code pre-empted as well (its failover bookkeeping is not judged, the pool behind it is). Configurations marked warn_error run with every warning turned into an error.")
 MANIFEST = {
     "category": "exploration",
     "technique": "systematic schedule exploration with a harness-owned deterministic thread scheduler (bytecode-level yield points via sys.settrace): exhaustive enumeration of all schedules up to a pre-emption bound for the two-thread configurations, Hypothesis-drawn schedules for larger ones; invariant and end-state oracles",
@@ -50,6 +51,8 @@ def _cur():
 def trace_filter(code):
     if code.co_filename == P.__file__:
         return True
+    if code.co_filename == HM.__file__:
+        return True            # (harness h: the hash client in front of the pooled clients is pre-empted as well)
     return code.co_filename == B.__file__ and code.co_qualname.startswith("PooledClient.")
 
 
@@ -112,9 +115,15 @@ def run_case(case):
             srv = McServer(clock)
             net.add_server(("mc1", 11211), srv)
             srv.refuse[b"toolarge"] = "too-large"          # a store the server refuses (SERVER_ERROR) although the connection is fine
-            pc = PooledClient(("mc1", 11211), socket_module=net, max_pool_size=max_size, lock_generator=make_lock, default_noreply=False,
-                              pool_idle_timeout=case.get("idle", 0))
-            pool = pc.client_pool
+            if harness == "h":
+                # a HashClient(use_pooling=True) shared by the threads: one server, whose pooled client's pool is watched
+                pc = HM.HashClient([("mc1", 11211)], use_pooling=True, socket_module=net, max_pool_size=max_size, lock_generator=make_lock,
+                                   default_noreply=False, pool_idle_timeout=case.get("idle", 0), retry_attempts=case.get("retry_attempts", 2))
+                pool = next(iter(pc.clients.values())).client_pool
+            else:
+                pc = PooledClient(("mc1", 11211), socket_module=net, max_pool_size=max_size, lock_generator=make_lock, default_noreply=False,
+                                  pool_idle_timeout=case.get("idle", 0))
+                pool = pc.client_pool
             orig_creator = pool._obj_creator
 
             def mk():
@@ -228,12 +237,21 @@ def run_case(case):
                             problems.append(("internal-error", "%s raised %r" % (op, e)))
                     except ConnectionResetError:
                         pass
+                    except MemcacheError as e:
+                        # (a hash client whose only server has failed says so)
+                        if not (harness == "h" and "All servers seem to be down" in str(e)):
+                            problems.append(("internal-error", "%s raised %r" % (op, e)))
                     except OSError as e:
                         if harness != "c":
                             problems.append(("internal-error", "%s raised %r" % (op, e)))
                     except Exception as e:  # noqa: BLE001
                         if harness == "c":
                             continue      # close() racing with a call in flight closes a held connection: by design
+                        if harness == "h" and not isinstance(e, RuntimeError):
+                            # the hash client's failover bookkeeping is not part of this property (and is not safe against
+                            # two threads marking one server at the same moment: KeyError from _failed_clients.pop); what is
+                            # judged is the pool behind it
+                            continue
                         problems.append(("internal-error", "%s raised %r" % (op, e)))
             return run
 
@@ -260,7 +278,7 @@ def run_case(case):
             def probe():
                 for _ in range(min(limit, 3) + 1):
                     try:
-                        if harness == "a":
+                        if harness in ("a", "h"):      # (h: the hash client may have given its only server up; the pool behind it is what is asked)
                             pool.release(pool.get())
                         else:
                             pc.get("k")
@@ -293,7 +311,7 @@ def run_case(case):
                     problems.append(("after-remove-count", "an object that left the pool had after_remove invoked %d times" % n_removed))
             if len(free_ids) > limit:
                 problems.append(("over-max-size", "pool ends with %d idle objects, max_size %d" % (len(free_ids), limit)))
-            if net is not None and harness == "b":
+            if net is not None and harness in ("b", "h"):
                 idle_socks = {id(c.sock) for c in pool._free_objs if c.sock is not None}
                 for s_ in net.sockets:
                     if id(s_) in idle_socks:
@@ -358,6 +376,12 @@ def bounded_cases(tier, seed):
         confs.append({"harness": "b", "threads": [["setrefused"], ["set"]], "max_size": ms, "two_in_quick": ms == 1})
         confs.append({"harness": "b", "threads": [["setmanyrefused"], ["get"]], "max_size": ms})
     confs.append({"harness": "b", "threads": [["setrefused"], ["setmanyrefused"]], "max_size": 2})
+    # a HashClient(use_pooling=True) shared by two threads (the hash client's own code is pre-empted too)
+    for ms in (1, 2):
+        confs.append({"harness": "h", "threads": [["set"], ["get"]], "max_size": ms})
+        confs.append({"harness": "h", "threads": [["get"], ["failget"]], "max_size": ms, "fail_recv": [0]})
+        confs.append({"harness": "h", "threads": [["failget", "get"], ["set"]], "max_size": ms, "fail_recv": [0], "retry_attempts": 0})
+    confs.append({"harness": "h", "threads": [["set", "get"], ["get", "set"]], "max_size": 2, "idle": 5, "tick": 3})
     confs.append({"harness": "c", "threads": [["set"], ["close"]], "max_size": 2})
     confs.append({"harness": "c", "threads": [["set"], ["close"]], "max_size": 2, "warn_error": True})
     confs.append({"harness": "c", "threads": [["get", "set"], ["close"]], "max_size": 1, "warn_error": True})
@@ -401,7 +425,10 @@ def random_strategy(tier):
                                "first": st.integers(0, 2), "idle": st.sampled_from([0, 0, 5]), "tick": st.sampled_from([0, 3, 6])})
     c = st.fixed_dictionaries({"harness": st.just("c"), "threads": st.lists(st.lists(st.sampled_from(OPS_B), min_size=1, max_size=2), min_size=1, max_size=2).map(
         lambda t: t + [["close"]]), "max_size": st.sampled_from([1, 2]), "choices": choices, "first": st.integers(0, 2)})
-    return st.one_of(a, b, b, c)
+    h = st.fixed_dictionaries({"harness": st.just("h"), "threads": st.lists(st.lists(st.sampled_from(["set", "get", "failget", "quit"]), min_size=1, max_size=3), min_size=2, max_size=3),
+                               "max_size": st.sampled_from([1, 2]), "fail_recv": st.lists(st.integers(0, 5), max_size=2, unique=True), "choices": choices,
+                               "first": st.integers(0, 2), "idle": st.sampled_from([0, 0, 5]), "tick": st.sampled_from([0, 3, 6]), "retry_attempts": st.sampled_from([0, 1, 2])})
+    return st.one_of(a, b, b, c, h)
 
 
 PARTS = [
